@@ -319,6 +319,9 @@ class EngineBase:
         elif isinstance(v, VTuple):
             for i in v.items:
                 out += self.wf(i, st)
+        elif isinstance(v, VRecord):
+            for _, i in v.items:
+                out += self.wf(i, st)
         elif isinstance(v, VListRef):
             out += self.wf(st.lists[v.lid], st)
         elif isinstance(v, VList):
@@ -470,6 +473,8 @@ class EngineBase:
                 if isinstance(kind.elem, OBJ) and isinstance(v.elem, OBJ):
                     return VList(kind.elem, v.arrs, v.off, v.n)
             return None
+        if isinstance(kind, RECORD):
+            return v if isinstance(v, VRecord) and v.kind == kind else None
         if isinstance(kind, TUPLE) and isinstance(v, VTuple):
             items = [self.coerce(st, i, k) for i, k in zip(v.items, kind.items)]
             return None if any(i is None for i in items) else VTuple(tuple(items))
